@@ -1329,6 +1329,22 @@ def minimize_slice(ctx, pid, n, salt=41):
                 bad("C04/budget-not-prefix", f"seed {seed}: the calls of maxfun={N1} are not a prefix of the calls of maxfun={N2} (first difference at call {k+1})", N2)
             if r2.fun > r1.fun:
                 bad("C04/larger-budget-worse", f"seed {seed}: maxfun={N2} gives fun={r2.fun}, worse than maxfun={N1} with {r1.fun}", N2)
+        if pid == "C03":
+            # both limits given: whichever binds, the evaluation budget stays hard and nfev exact
+            for N, M in ((n1, 1000), (n2, int(rng.integers(1, 4)))):
+                f, calls = make()
+                try:
+                    from .common import run_limit
+
+                    with run_limit():
+                        r = minimize(f, bounds, maxfun=N, maxiter=M, seed=seed)
+                except Exception as e:  # noqa: BLE001
+                    bad("C03/minimize-crashed", f"minimize(maxfun={N}, maxiter={M}, seed={seed}) raised {type(e).__name__}: {e}", N)
+                    continue
+                if len(calls) > N:
+                    bad("C03/maxfun-exceeded", f"minimize(maxfun={N}, maxiter={M}) invoked fun {len(calls)} times", N)
+                if r.nfev != len(calls):
+                    bad("C03/nfev-wrong", f"minimize(maxfun={N}, maxiter={M}).nfev={r.nfev} but fun was called {len(calls)} times", N)
         if pid == "C05":
             it = int(rng.integers(1, 5))
             f, calls = make()
